@@ -504,6 +504,31 @@ def merge_keys(ctx, report):
                                  and e.attr not in ("append", "extend", "endswith")
                                  for pr in pairs for e0 in pr for e in ast.walk(e0)):
                     tests.append((fn, n, pairs, t))
+        if not tests:
+            # recognised wrong shape: captions collected in a container KEYED by their times are merged
+            # across the whole list, not only when they follow each other
+            keyed = []
+            for fn in closure(ctx.index, top):
+                for n in walk_no_nested(fn.node):
+                    key = None
+                    if isinstance(n, ast.Subscript):
+                        key = n.slice
+                    elif isinstance(n, ast.Call) and isinstance(n.func, ast.Attribute) \
+                            and n.func.attr in ("setdefault", "get") and n.args:
+                        key = n.args[0]
+                    if key is None:
+                        continue
+                    k = resolve_local(fn, key, index=ctx.index)
+                    if isinstance(k, ast.Tuple) and any(isinstance(e, ast.Attribute) and e.attr in ("start", "end")
+                                                        for e in k.elts):
+                        keyed.append((fn, n, src(k)))
+            if keyed:
+                fn, n, k = keyed[0]
+                report.violation("R-MERGE-KEY", (fn, n), "only captions that FOLLOW each other with the same (start, end) "
+                                 "are merged", {"found": f"captions are grouped in a mapping keyed by {k}",
+                                                "why": "two captions with the same times separated by a different one are "
+                                                       "joined: the later text moves forward and its cue disappears"}, "5")
+                continue
         if len(tests) != 1:
             raise AnalysisError(f"{q}: expected one equality test of caption times guarding the merge, "
                                 f"found {len(tests)}")
